@@ -97,6 +97,39 @@ def rule_parse(ctx, prop):
 FORMAT_CALL = re.compile(r"^formatters::.*::(format_[a-z_]+|hang_[a-z_]+)$")
 
 
+def _captured_shape_is_simple(prog, g, place, depth=0):
+    """the upvar `place` of closure g holds a Shape that went through Shape::with_simple_heuristics in an enclosing fn"""
+    if depth > 3:
+        return False
+    try:
+        idx = int([e["f"] for e in place.get("p", []) if isinstance(e, dict) and "f" in e][0])
+    except (IndexError, ValueError, TypeError):
+        return False
+    parent = prog.fn(g.crate, g.path.rsplit("::{closure", 1)[0])
+    if parent is None:
+        return False
+    for b, si_, s in parent.stmts():
+        if s["k"] == "assign" and s["rv"]["k"] == "agg" and s["rv"].get("closure") == g.path and idx < len(s["rv"]["ops"]):
+            stack = [s["rv"]["ops"][idx]]
+            seen = set()
+            while stack:
+                o = stack.pop()
+                for og in operand_origins(parent, o):
+                    if og[0] == "call":
+                        if og[1] in seen:
+                            continue
+                        seen.add(og[1])
+                        cc = callee(og[2])
+                        if cc.endswith("Shape::with_simple_heuristics"):
+                            return True
+                        if cc.startswith("shape::Shape::") or "shape::Shape as" in cc:
+                            stack.append(og[2]["args"][0])
+                    elif og[0] in ("upvar", "proj") and parent.kind == "Closure" and isinstance(og[1], dict) and og[1].get("l") == 1:
+                        if _captured_shape_is_simple(prog, parent, og[1], depth + 1):
+                            return True
+    return False
+
+
 def rule_heur(ctx, prop):
     rep = Report(prop, "R-HEUR", "trial formatting in function_args_multiline_heuristic is bounded by the "
                                  "simple_heuristics flag")
@@ -161,6 +194,10 @@ def rule_heur(ctx, prop):
                                     ok_shape = True
                                 elif cc.startswith("shape::Shape::") or "shape::Shape as" in cc:
                                     stack.append(og[2]["args"][0])
+                            elif og[0] in ("upvar", "proj") and g.kind == "Closure" and isinstance(og[1], dict) and og[1].get("l") == 1:
+                                # a shape captured from the enclosing function (`let trial_shape = shape.with_simple_heuristics()..`)
+                                if _captured_shape_is_simple(prog, g, og[1]):
+                                    ok_shape = True
                 if g is f:
                     dom_ok = f.dominates(fb, b)
                 else:
